@@ -242,18 +242,30 @@ end TemperRestore
 section Cache
 variable {F64 R Q U : Type}
 
+/-- SPEC of the cache fill: both caches hold what `make_eqs_from_graphs` gives on the two sub-slices now -/
+def fillCaches (ops : Ops F64 R Q U) (tc : TC F64 R Q) : TC F64 R Q :=
+  { tc with
+    graph_ham_eq_a := some (eqsOf ops (firstSub tc.graphs).1),
+    graph_ham_eq_b := some (eqsOf ops (secondSub tc.graphs).2.1) }
+
+/-- The obligation on the REGENERATED guard and `make_ham_equalities` body: from every valid cache state (each cache
+`None` or up to date) the guarded rebuild ends with both caches up to date.  (Guard `a.is_none() || b.is_none()` +
+"rebuild both" satisfies it; so would "rebuild what is missing"; a guard that misses a `None` cache does not.) -/
 theorem ensure_of_valid (ops : Ops F64 R Q U) (tc : TC F64 R Q) (h : CacheValid ops tc) :
-    ensureCaches ops tc = makeHamEqualities ops tc := by
+    ensureCaches ops tc = fillCaches ops tc := by
   cases tc with
   | mk graphs rng ea eb ts =>
     obtain ⟨ha, hb⟩ := h
     simp only at ha hb
     rcases ha with ha | ha <;> rcases hb with hb | hb <;> subst ha <;> subst hb <;>
-      simp [ensureCaches, makeHamEqualities]
+      simp [ensureCaches, makeHamEqualities, fillCaches, TemperingContainer.rebuildGuard,
+        TemperingContainer.makeHamEqualities]
 
 theorem ensure_reset (ops : Ops F64 R Q U) (tc : TC F64 R Q) :
-    ensureCaches ops (resetCaches tc) = makeHamEqualities ops tc := by
-  cases tc; simp [ensureCaches, makeHamEqualities, resetCaches]
+    ensureCaches ops (resetCaches tc) = fillCaches ops tc := by
+  cases tc
+  simp [ensureCaches, makeHamEqualities, resetCaches, fillCaches, TemperingContainer.rebuildGuard,
+    TemperingContainer.makeHamEqualities]
 
 theorem body_reset_irrelevant (ops : Ops F64 R Q U) (setAll : Nat → List (Q × F64) → List (Q × F64))
     (swA swB : R → List (Q × F64) → List Bool → List (Q × F64) × R × Nat)
@@ -413,8 +425,8 @@ theorem rest_keeps {ops : Ops F64 R Q U} {sig : Q → H} {setAll swA swB}
     · simp only
       exact ⟨by rw [h4.1, h3.1]; exact hset _ _, by rw [h4.2.1, h3.2.1], by rw [h4.2.2, h3.2.2]⟩
 
-theorem cacheValid_makeHamEqualities (ops : Ops F64 R Q U) (tc : TC F64 R Q) :
-    CacheValid ops (makeHamEqualities ops tc) := ⟨Or.inr rfl, Or.inr rfl⟩
+theorem cacheValid_fill (ops : Ops F64 R Q U) (tc : TC F64 R Q) :
+    CacheValid ops (fillCaches ops tc) := ⟨Or.inr rfl, Or.inr rfl⟩
 
 theorem body_cacheValid {ops : Ops F64 R Q U} {sig : Q → H} {eqH : H → H → Bool} (hs : HamStable ops sig eqH)
     {setAll swA swB} (hset : ∀ c l, sigs sig (setAll c l) = sigs sig l)
@@ -422,8 +434,8 @@ theorem body_cacheValid {ops : Ops F64 R Q U} {sig : Q → H} {eqH : H → H →
     CacheValid ops (temperingBody ops setAll swA swB tc) := by
   unfold temperingBody
   rw [ensure_of_valid ops tc h]
-  obtain ⟨hg, ha, hb⟩ := rest_keeps (ops := ops) hset hA hB (makeHamEqualities ops tc)
-  have hg' : sigs sig (temperingRest ops setAll swA swB (makeHamEqualities ops tc)).graphs = sigs sig tc.graphs := hg
+  obtain ⟨hg, ha, hb⟩ := rest_keeps (ops := ops) hset hA hB (fillCaches ops tc)
+  have hg' : sigs sig (temperingRest ops setAll swA swB (fillCaches ops tc)).graphs = sigs sig tc.graphs := hg
   constructor
   · right
     rw [ha]
@@ -735,18 +747,17 @@ theorem cacheValid_of_sigs {ops : Ops F64 R Q U} {sig : Q → H} {eqH : H → H 
       rw [hb, eqsOf_congr hs _ _ (sigs_secondSub sig _ _ hg)]
 
 theorem step_length {ops : Ops F64 R Q U} {sig : Q → H} {eqH : H → H → Bool} (hs : HamStable ops sig eqH)
-    (tc : TC F64 R Q) : (temperingStep ops tc).graphs.length = tc.graphs.length := by
+    (tc : TC F64 R Q) (hc : CacheValid ops tc) : (temperingStep ops tc).graphs.length = tc.graphs.length := by
   unfold temperingStep
   split
   · rfl
   · unfold temperingBody
+    rw [ensure_of_valid ops tc hc]
     have h := (rest_keeps (ops := ops) (sig := sig) (setAllSerial_sigs hs) (performSwaps_sigs hs) (performSwaps_sigs hs)
-      (ensureCaches ops tc)).1
+      (fillCaches ops tc)).1
     have h2 := congrArg List.length h
     rw [sigs_length, sigs_length] at h2
-    rw [h2]
-    unfold ensureCaches
-    split <;> rfl
+    exact h2
 
 /-- the loop invariant of the sampling drivers -/
 def DriverInv (ops : Ops F64 R Q U) (s : LoopState F64 R Q A S) : Prop :=
@@ -787,6 +798,7 @@ theorem body_eq_and_inv {ops : Ops F64 R Q U} {sig : Q → H} {eqH : H → H →
     hcv' (by show List.length _ ≠ 1; rw [hlen1]; exact hn1)
   have hsl := step_length hs
     { s.tc with graphs := ((s.tc.graphs.zip s.acc).map (stepTask so (min (min s.toSample s.toSwap) s.remaining))).map (·.1) }
+    hcv'
   have hscv := step_cacheValid hs _ hcv'
   constructor
   · unfold loopBody
@@ -811,5 +823,52 @@ theorem body_eq_and_inv {ops : Ops F64 R Q U} {sig : Q → H} {eqH : H → H →
         rw [hlen1]; exact hn1
 
 end Driver
+
+/-! ## Cache validity is an invariant of everything the API can do to a container -/
+section Reach
+variable {F64 R Q U H : Type}
+
+/-- `TemperingContainer::new` (regenerated literal): both caches empty -/
+theorem cacheValid_new (ops : Ops F64 R Q U) (r : R) : CacheValid ops (TemperingContainer.new r : TC F64 R Q) := by
+  simp [TemperingContainer.new, CacheValid]
+
+/-- **`cache_valid_after_add`**, against the REGENERATED body of `add_qmc_stepper`: appending a replica changes both
+sub-slices' pairings, so validity survives only because BOTH caches are reset.  (A body that resets one cache, or
+resets under a parity guard, leaves a stale `Some` that is one entry short: this proof then fails.) -/
+theorem cacheValid_add (ops : Ops F64 R Q U) (tc : TC F64 R Q) (q : Q) (beta : F64) (h : CacheValid ops tc) :
+    CacheValid ops (addReplica tc q beta) := by
+  cases tc with
+  | mk graphs rng ea eb ts =>
+    obtain ⟨ha, hb⟩ := h
+    simp only at ha hb
+    rcases ha with ha | ha <;> rcases hb with hb | hb <;> subst ha <;> subst hb <;>
+      simp [addReplica, TemperingContainer.addQmcStepper, CacheValid]
+
+/-- Everything reachable through the API: `new`, `add_qmc_stepper`, serial and rayon tempering steps, any update of
+the replicas that leaves the Hamiltonian data in place (`timesteps`, and `graph_mut` used that way), and an RNG-less
+snapshot / restore cycle. -/
+inductive Reachable (ops : Ops F64 R Q U) (sig : Q → H) : TC F64 R Q → Prop
+  | new (r : R) : Reachable ops sig (TemperingContainer.new r)
+  | add {tc : TC F64 R Q} (q : Q) (beta : F64) : Reachable ops sig tc → Reachable ops sig (addReplica tc q beta)
+  | step {tc : TC F64 R Q} : Reachable ops sig tc → Reachable ops sig (temperingStep ops tc)
+  | parStep {tc : TC F64 R Q} (sched : Scheduler) (hv : sched.Valid) (k : Nat) (h1 : tc.graphs.length ≠ 1) :
+      Reachable ops sig tc → Reachable ops sig (parTemperingStep ops sched k tc)
+  | update {tc : TC F64 R Q} (g' : List (Q × F64)) (hg : sigs sig g' = sigs sig tc.graphs) :
+      Reachable ops sig tc → Reachable ops sig { tc with graphs := g' }
+  | restore {tc : TC F64 R Q} : Reachable ops sig tc → Reachable ops sig (resetCaches tc)
+
+theorem reachable_cacheValid {ops : Ops F64 R Q U} {sig : Q → H} {eqH : H → H → Bool} (hs : HamStable ops sig eqH)
+    {tc : TC F64 R Q} (h : Reachable ops sig tc) : CacheValid ops tc := by
+  induction h with
+  | new r => exact cacheValid_new ops r
+  | add q beta _ ih => exact cacheValid_add ops _ q beta ih
+  | step _ ih => exact step_cacheValid hs _ ih
+  | parStep sched hv k h1 _ ih =>
+    rw [parTemperingStep_eq ops sched hv k _ ih h1]
+    exact step_cacheValid hs _ ih
+  | update g' hg _ ih => exact cacheValid_of_sigs hs _ g' hg ih
+  | restore _ ih => exact cacheValid_reset ops _
+
+end Reach
 
 end Qmc.Snap
